@@ -274,8 +274,26 @@ func ruleR2_7(w *World, r *Report) {
 func ruleR2_8(w *World, r *Report) {
 	r.Rule("R2.8", "in clause learning, a literal read from a conflict or reason constraint marks its variable as met only on the path where the literal is false under the current bindings (constraints of degree > 1 contain true literals that are no reason for the conflict)", 2)
 	n := 0
+	// scope: the clause-learning analyser (the one that consults the assumption flags) and what it calls; the
+	// bookkeeping sets of other analysers (activity bumping in the cutting-planes analyser) are not `met` sets
+	scope := map[*ssa.Function]bool{}
+	for _, an := range conflictAnalysers(w) {
+		reads := false
+		allInstrs(an, func(ins ssa.Instruction) {
+			if u, ok := ins.(*ssa.UnOp); ok && u.Op == token.MUL {
+				if o, f, _, ok := fieldOf(u.X); ok && o == "solver.Solver" && f == "assumptions" {
+					reads = true
+				}
+			}
+		})
+		if reads {
+			for g := range w.Reachable(an) {
+				scope[g] = true
+			}
+		}
+	}
 	for _, fn := range w.Fns {
-		if w.PkgName(fn) != "solver" {
+		if w.PkgName(fn) != "solver" || !scope[fn] {
 			continue
 		}
 		allInstrs(fn, func(ins ssa.Instruction) {
